@@ -40,11 +40,15 @@ AllLower(s) == s.label # "Upper" /\ s.out # "Upper" /\ \A i \in 1..Len(s.st) : s
 RunForms == {"file", "-e", "--eval"}
 LintForms == {"-l", "--lint"}
 InfoForms == {"--version", "--help", "-h"}
+\* `!print pp` lines print while the text is parsed - once each, before anything runs, up to the first line that does not parse
+RECURSIVE PreBefore(_,_)
+PreBefore(st, i) == IF i > Len(st) \/ st[i] = "badquote" THEN 0 ELSE (IF st[i] = "pre" THEN 1 ELSE 0) + PreBefore(st, i+1)
+ParsePrints(s) == IF s.missing THEN 0 ELSE PreBefore(s.st, 1)
 \* [status0: exit status is 0, errline: an "Error:" line is printed, ran: the marker statement was executed, echoes]
 Status(form, s) ==
   CASE form \in RunForms -> LET o == Outcome(s) IN [status0 |-> o \in {"ok", "exit-zero"}, errline |-> o \notin {"ok", "exit-zero"},
-                                                   ran |-> o \notin {"parse-error", "missing-file"}, echoes |-> Printed(s), lines |-> PrintedLines(s)]
+                                                   ran |-> o \notin {"parse-error", "missing-file"}, echoes |-> Printed(s), lines |-> PrintedLines(s), pp |-> ParsePrints(s)]
     [] form \in LintForms -> LET good == Outcome(s) \notin {"parse-error", "missing-file"} /\ AllLower(s) IN
-                             [status0 |-> good, errline |-> ~good, ran |-> FALSE, echoes |-> 0, lines |-> <<>>]
-    [] form \in InfoForms -> [status0 |-> TRUE, errline |-> FALSE, ran |-> FALSE, echoes |-> 0, lines |-> <<>>]
+                             [status0 |-> good, errline |-> ~good, ran |-> FALSE, echoes |-> 0, lines |-> <<>>, pp |-> ParsePrints(s)]
+    [] form \in InfoForms -> [status0 |-> TRUE, errline |-> FALSE, ran |-> FALSE, echoes |-> 0, lines |-> <<>>, pp |-> 0]
 =============================================================================
